@@ -1,6 +1,7 @@
 package main
 
 import (
+	"encoding/json"
 	"sort"
 	"fmt"
 	"go/token"
@@ -273,6 +274,30 @@ func main() {
 			}
 		}
 		fmt.Println(len(s.Obs))
+	case "gcgen":
+		facts, _, skipped := rules.GCFacts(rc, nil)
+		ref := map[string][]string{}
+		for k, v := range facts {
+			if len(v) > 0 {
+				ref[k] = v
+			}
+		}
+		b, _ := json.MarshalIndent(ref, "", " ")
+		os.WriteFile("/verif/checker/rules/guards_ref.json", append(b, '\n'), 0o644)
+		fmt.Println("sites with facts:", len(ref), "of", len(facts), "skipped functions:", skipped, time.Since(t0))
+	case "gc":
+		rules.GC(rc, nil, 0)
+		n := 0
+		for _, o := range s.Obs {
+			if o.Verdict != core.OK {
+				fmt.Println(o.V, o.Rule, o.Key, o.Pos, "::", o.Detail)
+			} else {
+				n++
+			}
+		}
+		fmt.Println("ok", n, s.Analysed, time.Since(t0))
+	case "sp":
+		rules.SPsurvey(rc)
 	case "k1w":
 		rules.K1w(rc, nil, 0)
 		for _, o := range s.Obs {
